@@ -198,6 +198,9 @@ var (
 
 // repoRoot is the tree this binary was compiled against (go.mod replace).
 func repoRoot() string {
+	if r := os.Getenv("VERIF_REPO"); r != "" {
+		return r
+	}
 	if bi, ok := debug.ReadBuildInfo(); ok {
 		for _, d := range bi.Deps {
 			if d.Path == "deps.dev/util/resolve" && d.Replace != nil && filepath.IsAbs(d.Replace.Path) {
